@@ -1,4 +1,142 @@
-(* Properties_C08.v — placeholder while the pipeline is brought up; replaced by the real statements *)
-From NM Require Import Base Index Reduce.
+(* Properties_C08.v — C08: reductions and accumulations fold exactly the addressed elements, in order.
+   Statements only.  Every statement holds for EVERY rank, all positive extents, EVERY binary
+   operation [f] on EVERY element type [A] (no commutativity / associativity is assumed anywhere,
+   so the ORDER of the fold is part of each equation).
+   Model  = Reduce.remove_dims / reduce_at / accumulate_at  (the C++ loops, branch for branch)
+   Spec   = Reduce.reduce_shape_spec / reduce_spec / accumulate_spec (NumPy: mask of reduced axes,
+            left fold over [a (merge mask i r) | r <- lex_enum (reduced extents)]). *)
+From Coq Require Import Permutation.
+From NM Require Import Base Index IndexProofs Reduce ReduceProofs.
 Local Open Scope Z_scope.
-Theorem C08_placeholder : True. Proof. exact I. Qed.
+
+(* result shape: for an axis argument NumPy accepts (None, an axis in [-ndim,ndim), or a list of such
+   axes without repetition after normalisation, in any order) remove_dims gives NumPy's shape:
+   reduced axes removed, or kept with extent 1 under keepdims *)
+Theorem C08_reduce_shape : forall s ax keepdims,
+  axes_ok (zlen s) ax = true ->
+  remove_dims s ax keepdims = Some (reduce_shape_spec s ax keepdims).
+Proof. exact remove_dims_spec. Qed.
+Print Assumptions C08_reduce_shape.
+
+(* element: at every index of the result, the view returns the LEFT fold — seeded by [initial] or,
+   without it, by the first element — of exactly the source elements whose non-reduced coordinates
+   are those of the index, the reduced coordinates running in nested-loop (increasing) order;
+   that list is never empty and every source index in it lies inside the source shape *)
+Theorem C08_reduce_elem : forall (A : Type) (f : A -> A -> A) (a : list Z -> A) s ax keepdims init idx,
+  pos s -> axes_ok (zlen s) ax = true -> inb idx (reduce_shape_spec s ax keepdims) ->
+  let mask := red_mask (length s) ax in
+  let i := if keepdims then drop_reduced mask idx else idx in
+  reduce_at f a s ax keepdims init idx = reduce_spec f a s ax keepdims init idx
+  /\ reduce_spec f a s ax keepdims init idx = fold_spec f (spec_elems a mask s i) init
+  /\ spec_elems a mask s i <> []
+  /\ (forall r, In r (lex_enum (reduced_extents mask s)) -> inb (merge mask i r) s).
+Proof.
+  intros A f a s ax kd init idx Hp Hok Hi mask i.
+  split; [exact (reduce_at_spec A f a s ax kd init idx Hp Hok (inb_length _ _ Hi))|].
+  split; [reflexivity|].
+  split; [exact (spec_elems_nonempty A a mask s i Hp)|].
+  intros r Hr. pose proof (red_mask_length (length s) ax) as Hl.
+  apply (in_lex_enum _ (reduced_extents_pos mask s Hp)) in Hr.
+  apply merge_inb; [exact Hl | | exact Hr].
+  subst i. destruct kd; [apply drop_reduced_inb; [exact Hl | exact Hi] | exact Hi].
+Qed.
+Print Assumptions C08_reduce_elem.
+
+(* the order and the signs in which the axes are written do not matter: two accepted axis arguments
+   naming the same set of axes give the same shape and the same elements; in particular any
+   permutation of the normalised axes *)
+Theorem C08_axes_order_and_sign : forall (A : Type) (f : A -> A -> A) (a : list Z -> A) s ax ax' keepdims init idx,
+  pos s -> axes_ok (zlen s) ax = true -> axes_ok (zlen s) ax' = true ->
+  red_mask (length s) ax = red_mask (length s) ax' ->
+  inb idx (reduce_shape_spec s ax keepdims) ->
+  remove_dims s ax keepdims = remove_dims s ax' keepdims
+  /\ reduce_at f a s ax keepdims init idx = reduce_at f a s ax' keepdims init idx.
+Proof.
+  intros A f a s ax ax' kd init idx Hp H1 H2 Hm Hi.
+  exact (reduce_depends_on_mask A f a s ax ax' kd init idx Hp H1 H2 Hm (inb_length _ _ Hi)).
+Qed.
+Print Assumptions C08_axes_order_and_sign.
+
+Theorem C08_axes_permutation_same_mask : forall n l l',
+  Permutation (map (np_norm (Z.of_nat n)) l) (map (np_norm (Z.of_nat n)) l') ->
+  red_mask n (AxList l) = red_mask n (AxList l').
+Proof. exact red_mask_perm. Qed.
+Print Assumptions C08_axes_permutation_same_mask.
+
+(* reducing over all axes (a duplicate-free list of ndim axes) equals axis = None,
+   which folds the whole array in row-major order *)
+Theorem C08_reduce_all_axes_eq_none : forall (A : Type) (f : A -> A -> A) (a : list Z -> A) s l keepdims init idx,
+  pos s -> axes_ok (zlen s) (AxList l) = true -> length l = length s ->
+  inb idx (reduce_shape_spec s (AxList l) keepdims) ->
+  remove_dims s (AxList l) keepdims = remove_dims s AxNone keepdims
+  /\ reduce_at f a s (AxList l) keepdims init idx = reduce_at f a s AxNone keepdims init idx
+  /\ reduce_at f a s AxNone keepdims init idx = fold_spec f (map a (lex_enum s)) init.
+Proof.
+  intros A f a s l kd init idx Hp Hok Hl Hi.
+  pose proof (all_axes_mask (length s) l Hok Hl) as Hm.
+  destruct (reduce_depends_on_mask A f a s (AxList l) AxNone kd init idx Hp Hok eq_refl Hm (inb_length _ _ Hi)) as [E1 E2].
+  split; [exact E1|]. split; [exact E2|].
+  rewrite (reduce_at_spec A f a s AxNone kd init idx Hp eq_refl).
+  - unfold reduce_spec. cbn [red_mask]. now rewrite spec_elems_all.
+  - unfold reduce_shape_spec in *. rewrite <- Hm. exact (inb_length _ _ Hi).
+Qed.
+Print Assumptions C08_reduce_all_axes_eq_none.
+
+(* accumulate along a non-negative axis: source shape, element idx = running left fold of
+   a[.., 0..idx_axis, ..] (seeded by the first element) *)
+Theorem C08_accumulate_on_domain : forall (A : Type) (f : A -> A -> A) (a : list Z -> A) s axis idx,
+  0 <= axis < zlen s -> inb idx s ->
+  accumulate_at f a axis idx = accumulate_spec f a (zlen s) axis idx.
+Proof. exact accumulate_at_spec. Qed.
+Print Assumptions C08_accumulate_on_domain.
+
+(* ... but a valid NEGATIVE axis is not normalised: the view returns its input (finding) *)
+Theorem C08_accumulate_negative_axis_refuted :
+  exists (s : list Z) (a : list Z -> Z) axis idx,
+    pos s /\ - zlen s <= axis < 0 /\ inb idx s /\
+    accumulate_at Z.add a axis idx <> accumulate_spec Z.add a (zlen s) axis idx.
+Proof. exact accumulate_negative_axis_refuted. Qed.
+Print Assumptions C08_accumulate_negative_axis_refuted.
+
+(* sum / prod / amax / amin are the instances f = +, *, max, min *)
+Theorem C08_sum_prod_amax_amin : forall (a : list Z -> Z) s ax keepdims init idx,
+  pos s -> axes_ok (zlen s) ax = true -> inb idx (reduce_shape_spec s ax keepdims) ->
+  reduce_at Z.add a s ax keepdims init idx = reduce_spec Z.add a s ax keepdims init idx
+  /\ reduce_at Z.mul a s ax keepdims init idx = reduce_spec Z.mul a s ax keepdims init idx
+  /\ reduce_at Z.max a s ax keepdims init idx = reduce_spec Z.max a s ax keepdims init idx
+  /\ reduce_at Z.min a s ax keepdims init idx = reduce_spec Z.min a s ax keepdims init idx.
+Proof.
+  intros a s ax kd init idx Hp Hok Hi. pose proof (inb_length _ _ Hi) as Hl.
+  repeat split; apply reduce_at_spec; assumption.
+Qed.
+Print Assumptions C08_sum_prod_amax_amin.
+
+(* mean / var: the divisor computed by index::mean_divisor on the normalised axis equals the number
+   of elements each fold visits *)
+Theorem C08_mean_divisor_counts_folded_elements : forall (A : Type) (a : list Z -> A) s ax nax i,
+  pos s -> axes_ok (zlen s) ax = true -> normalize ax (zlen s) = Some nax ->
+  mean_divisor s nax = Z.of_nat (length (spec_elems a (red_mask (length s) ax) s i)).
+Proof.
+  intros A a s ax nax i Hp Hok Hn.
+  rewrite (spec_elems_count a _ s i Hp). exact (mean_divisor_spec s ax nax Hok Hn).
+Qed.
+Print Assumptions C08_mean_divisor_counts_folded_elements.
+
+(* ---------- non-vacuity ---------- *)
+(* subtract over axes (-1, 0) of a (2,3,2) array with initial 100, keepdims: order is visible *)
+Definition iota (s : list Z) (i : list Z) : Z := horner 0 i s.
+Example C08_nonvacuous_reduce :
+  axes_ok 3 (AxList [-1; 0]) = true /\ inb [0; 2; 0] (reduce_shape_spec [2; 3; 2] (AxList [-1; 0]) true)
+  /\ remove_dims [2; 3; 2] (AxList [-1; 0]) true = Some [1; 3; 1]
+  /\ reduce_at Z.sub (iota [2; 3; 2]) [2; 3; 2] (AxList [-1; 0]) true (Some 100) [0; 2; 0] = Some (100 - 4 - 5 - 10 - 11)
+  /\ reduce_at Z.sub (iota [2; 3; 2]) [2; 3; 2] (AxInt 1) false None [1; 1] = Some (7 - 9 - 11).
+Proof. repeat split; try reflexivity. repeat constructor; lia. Qed.
+Example C08_nonvacuous_accumulate :
+  accumulate_at Z.sub (iota [2; 3]) 1 [1; 2] = Some (3 - 4 - 5)
+  /\ accumulate_spec Z.sub (iota [2; 3]) 2 (-1) [1; 2] = Some (3 - 4 - 5)
+  /\ accumulate_at Z.sub (iota [2; 3]) (-1) [1; 2] = Some 5.
+Proof. repeat split; reflexivity. Qed.
+Example C08_nonvacuous_all_axes :
+  axes_ok 2 (AxList [1; -2]) = true /\ red_mask 2 (AxList [1; -2]) = red_mask 2 AxNone
+  /\ mean_divisor [2; 3] (AxList [1; 0]) = 6.
+Proof. repeat split; reflexivity. Qed.
